@@ -115,7 +115,9 @@ func init() {
 				}
 				props := M{"own" + name[4:]: M{"type": "string", "minLength": 1}, "num": M{"type": "integer", "minimum": i}}
 				f.schema = M{idKw: f.id, "type": "object", "properties": props, "required": []any{"own" + name[4:]},
-					"$defs": M{"Def" + strings.ToUpper(name[4:]): M{"type": "object", "properties": M{"d" + name[4:]: M{"type": "boolean"}}}}}
+					"$defs": M{"Def" + strings.ToUpper(name[4:]): M{"type": "object", "properties": M{"d" + name[4:]: M{"type": "boolean"}}},
+						// … and an enum definition (declared through another path of the generator than structs)
+						"Kind" + strings.ToUpper(name[4:]): M{"type": "string", "enum": []any{"k" + name[4:] + "1", "k" + name[4:] + "2"}}}}
 				files = append(files, f)
 			}
 			// name coincidence: a definition of an earlier file is named like a later file's root type and both go to
@@ -137,6 +139,10 @@ func init() {
 					if c.R.P(0.5) {
 						rel, _ := filepath.Rel(filepath.Dir(files[i].path), files[j].path)
 						props := files[i].schema["properties"].(M)
+						if c.R.P(0.3) {
+							props[fmt.Sprintf("to%cKind", 'A'+j)] = M{"$ref": rel + "#/$defs/Kind" + string(rune('A'+j))}
+							refPattern += fmt.Sprintf("%d>%d#k ", i, j)
+						}
 						if c.R.P(0.5) {
 							props[fmt.Sprintf("to%c", 'A'+j)] = M{"$ref": rel}
 							refPattern += fmt.Sprintf("%d>%d ", i, j)
@@ -159,6 +165,7 @@ func init() {
 				}
 				return a
 			}
+			spell := func(wd, p string) string { return p }
 			run := func(name string, fs []c20File, order []int) (cliResult, string) {
 				wd := filepath.Join(tmp, fmt.Sprintf("s%d-%s", si, name))
 				_ = os.MkdirAll(wd, 0o755)
@@ -169,7 +176,7 @@ func init() {
 				}
 				args := flagsFor(fs)
 				for _, i := range order {
-					args = append(args, fs[i].path)
+					args = append(args, spell(wd, fs[i].path))
 				}
 				return runCLI(bin, wd, "", args...), wd
 			}
@@ -207,8 +214,9 @@ func init() {
 					continue
 				}
 				// every definition Def<X> of every file is declared exactly once, in the file mapped to its schema
-				for _, f := range files {
-					dn := "Def" + strings.TrimPrefix(f.root, "Root")
+				for fi2 := 0; fi2 < 2*len(files); fi2++ {
+					f := files[fi2/2]
+					dn := []string{"Def", "Kind"}[fi2%2] + strings.TrimPrefix(f.root, "Root")
 					declared, where := 0, ""
 					for name, data := range outs {
 						k := len(regexp.MustCompile(`(?m)^type `+dn+` `).FindAllString(data, -1))
@@ -293,6 +301,40 @@ func init() {
 							replayBase["order"] = perm
 							replayBase["difference"] = diffFiles(ref, outs)
 							c.Fail("oracle", "reordering the arguments changes the generated code: "+diffFiles(ref, outs), replayBase, false)
+						}
+					}
+				}
+			}
+			// the same files named differently on the command line (./x, an absolute path, a detour through ..): how an
+			// argument is spelled must not change what is generated, where it lands or how often it is declared
+			if ref != nil && !coincide && !sameStem {
+				for sn, sp := range map[string]func(wd, p string) string{
+					"dot-slash": func(wd, p string) string { return "./" + p },
+					"absolute":  func(wd, p string) string { return filepath.Join(wd, p) },
+					"detour": func(wd, p string) string {
+						return filepath.Dir(p) + "/../" + filepath.Base(filepath.Dir(p)) + "/" + filepath.Base(p)
+					},
+				} {
+					if sn == "detour" && si%2 == 0 {
+						continue
+					}
+					spell = sp
+					res, _ := run("spell-"+sn, files, perms[len(perms)-1])
+					spell = func(wd, p string) string { return p }
+					c.Eval(shape + "|spelling=" + sn)
+					outs := map[string]string{}
+					for name, data := range res.Files {
+						if strings.HasPrefix(name, "out/") {
+							outs[name] = data
+						}
+					}
+					if res.Exit != 0 || !sameFiles(ref, outs) {
+						fails++
+						if fails <= 3 {
+							replayBase["spelling"] = sn
+							replayBase["difference"] = diffFiles(ref, outs)
+							replayBase["stderr"] = clip(res.Stderr, 400)
+							c.Fail("oracle", "spelling the arguments differently ("+sn+") changes the generated code: "+clip(res.Stderr, 150)+diffFiles(ref, outs), replayBase, false)
 						}
 					}
 				}
